@@ -279,13 +279,30 @@ func (e *Exec) callStatic(fr *Frame, st *BState, x *ssa.Call, f *ssa.Function, a
 		}
 	}
 	if tup, ok := x.Type().(*types.Tuple); ok && tup.Len() == 0 {
+		if !inRepo {
+			libName := f.Name()
+			if i := strings.Index(libName, "["); i >= 0 {
+				libName = libName[:i]
+			}
+			cn := "$calls.lib" + libName
+			old := intLit(0)
+			if v, ok := st.ghost[cn]; ok {
+				old = scal(v)
+			}
+			st.ghost[cn] = intSV(add(old, intLit(1)))
+			ghostTypes[cn] = types.Typ[types.Int]
+		}
 		return &TupleV{}
 	}
 	r := e.freshSV(x.Type(), "call."+f.Name(), st.reach, false)
 	if !inRepo {
 		// abstracted library functions are visible to contracts the way interface methods are, under the name
 		// lib<Name>: calls(libFlush) counts them, lastres(libFlush) is the (final) result of the most recent one
-		cn := "$calls.lib" + f.Name()
+		libName := f.Name()
+		if i := strings.Index(libName, "["); i >= 0 {
+			libName = libName[:i] // instantiation of a generic function: Scan[*T] is Scan
+		}
+		cn := "$calls.lib" + libName
 		old := intLit(0)
 		if v, ok := st.ghost[cn]; ok {
 			old = scal(v)
@@ -294,12 +311,12 @@ func (e *Exec) callStatic(fr *Frame, st *BState, x *ssa.Call, f *ssa.Function, a
 		ghostTypes[cn] = types.Typ[types.Int]
 		if tup, ok := x.Type().(*types.Tuple); ok {
 			if tv, ok := r.(*TupleV); ok && len(tv.Elems) == tup.Len() {
-				st.ghost["$lastres.lib"+f.Name()] = tv.Elems[tup.Len()-1]
-				ghostTypes["$lastres.lib"+f.Name()] = tup.At(tup.Len() - 1).Type()
+				st.ghost["$lastres.lib"+libName] = tv.Elems[tup.Len()-1]
+				ghostTypes["$lastres.lib"+libName] = tup.At(tup.Len() - 1).Type()
 			}
 		} else {
-			st.ghost["$lastres.lib"+f.Name()] = r
-			ghostTypes["$lastres.lib"+f.Name()] = x.Type()
+			st.ghost["$lastres.lib"+libName] = r
+			ghostTypes["$lastres.lib"+libName] = x.Type()
 		}
 	}
 	return r
